@@ -186,6 +186,8 @@ def slice_classes(prog):
 
 def _make_any(I, cls, R):
     Dd = sym("D")
+    if cls == "GaussianMeasure/cached":
+        return make_measure(I, "warm", R, Dd, "u")
     if cls in FACTOR_KINDS:
         return make_factor(I, cls, R, Dd, "u")
     if cls in ("ConditionalGaussianPDF", "ConditionalGaussianDiagPDF", "ConditionalIdentityGaussianPDF", "ConditionalIdentityDiagGaussianPDF"):
@@ -197,6 +199,8 @@ def _make_any(I, cls, R):
 
 
 def slice_ob(prog, cls):
+    ctx = cls
+    cls = cls.split("/")[0]
     owner, _ = prog.method(cls, "slice")
     anchor = f"{prog.relpath(prog.cls(owner).mod)}::{owner}.slice"
 
@@ -204,7 +208,7 @@ def slice_ob(prog, cls):
         I = build.new_interp()
         approx = cls not in FACTOR_KINDS and not cls.startswith("Conditional")
         R = D(1) if approx else sym("R")
-        o = _make_any(I, cls, R)
+        o = _make_any(I, ctx, R)
         Rn = sym("Rn")
         idx = build.indices("idx", Rn)
         q = I.call_method(o, "slice", [idx])
@@ -235,7 +239,7 @@ def slice_ob(prog, cls):
         if bad:
             raise Refuted("; ".join(bad[:4]), anchor, bad)
         return [], dict(funcs=funcs_of(I), construct=anchor)
-    return Ob(f"slice/{cls}", run, "slice(idx) returns the same kind of object with every batch-carrying field taken with the same idx on axis 0 (field exhaustiveness against the class's field table)", anchor, group="slice")
+    return Ob(f"slice/{ctx}", run, "slice(idx) returns the same kind of object with every batch-carrying field taken with the same idx on axis 0 (field exhaustiveness against the class's field table)", anchor, group="slice")
 
 
 def _derived(prog, q, name):
@@ -324,7 +328,7 @@ def obligations(tier):
     obs = [coverage_ob(prog, table)]
     for name, cls, ctx, drv in table:
         obs.append(api_ob(name, cls, ctx, drv))
-    for cls in slice_classes(prog):
+    for cls in slice_classes(prog) + ["GaussianMeasure/cached"]:
         obs.append(slice_ob(prog, cls))
     for cls in ("GaussianPDF", "GaussianDiagPDF"):
         obs.append(update_ob(prog, cls))
